@@ -426,6 +426,8 @@ func (pConn *PFCPConn) handleSessionModificationRequest(msg message.Message) (me
 		return sendError(ErrWriteToDatapath)
 	}
 
+	releaseAllocatedFTEIDs(upf.fteidGenerator, &PFCPSession{PacketForwardingRules: deleted})
+
 	err := pConn.store.PutSession(session)
 	if err != nil {
 		logger.PfcpLog.Errorf("failed to put PFCP session to store: %v", err)
